@@ -1,6 +1,6 @@
 From SV Require Import Base.ListX Store.Raw Store.RawRefine Store.CleanProps Store.Masked Store.StoreInv Store.Bag Store.Ledger
   Store.ClearLedger Store.DeadHandle
-  World.Env World.SopLedger World.WorldSpec World.World World.Simulation World.NoStuck.
+  World.Env World.SopLedger World.WorldLedger World.HistoryLedger World.WorldSpec World.World World.Simulation World.NoStuck.
 From Coq Require Import Sorting.Permutation.
 From SV Require Import Props.C08.
 Check (C08_never_exposes_an_unwritten_or_moved_out_slot : forall os,
@@ -81,3 +81,11 @@ Check (C08_get_mut_or_default_conserves : forall ms m av e c, LInvS ms m ->
 Check (C08_every_storage_operation_conserves : forall ms m av ent so c, LInvS ms m ->
   let '(ms', out, c') := ms_sop ms av ent so c in
   exists m', LInvS ms' m' /\ conserves m m' (sop_ins ms av ent so) (sop_rets so out) c c').
+Check (C08_history_conserves : forall tr w L0, WInv w -> regs_ok w tr = true ->
+  forallb (fun p => ledger_op (fst p)) tr = true -> env_content (s_env w) L0 ->
+  exists Lf, env_content (s_env (fst (srun w tr))) Lf /\
+             Permutation (Lf ++ run_rets w tr ++ run_drops w tr) (L0 ++ run_ins w tr)).
+Check (C08_everything_handed_back_or_destroyed_exactly_once : forall tr,
+  regs_ok (s_init_env true) tr = true -> forallb (fun p => ledger_op (fst p)) tr = true ->
+  keys_of (s_env (fst (srun (s_init_env true) tr))) = [] ->
+  Permutation (run_rets (s_init_env true) tr ++ run_drops (s_init_env true) tr) (run_ins (s_init_env true) tr)).
